@@ -39,7 +39,7 @@ def spin_to_bool_coeffs(model_polys):
     return out
 
 
-def make_reduce(ctx, kind, n, U, method, deg, lam_mode, pairs=None, cons=False):
+def make_reduce(ctx, kind, n, U, method, deg, lam_mode, pairs=None, cons=False, remap=False):
     """kind: PUBO|PCBO|PUSO|PCSO; U: list of index tuples into the label pool"""
     import qubovert as qv
     from qubovert.utils import PUBOMatrix, PUSOMatrix, QUBOMatrix, QUSOMatrix
@@ -69,6 +69,10 @@ def make_reduce(ctx, kind, n, U, method, deg, lam_mode, pairs=None, cons=False):
             else:
                 M.add_constraint_lt_zero({(labels[0],): 1, (labels[1],): 2, (): -2}, lam=1)
         M.refresh()
+        if remap:
+            # a user-chosen (rotated) integer labelling: a consistent bookkeeping state in which the labels no longer follow first appearance
+            mp0 = M.mapping
+            M.set_mapping({l: (i + 1) % len(mp0) for l, i in mp0.items()})
         before = O.snapshot(M)
         kw = dict(lam=lam, pairs=pr)
         if method in ('to_pubo', 'to_puso'):
@@ -142,13 +146,13 @@ def _hi(n, lo_deg, count, seed=0):
 
 def jobs(tier, seed):
     J = []
-    def add(kind, n, U, method, deg, lam_mode, pairs=None, cons=False, budget=300):
-        name = '%s/%s/deg=%s/n%d/U=%s/lam=%s/pairs=%s%s' % (kind, method, deg, n, ','.join(''.join(map(str, k)) or '-' for k in U), lam_mode,
-                                                          pairs, '/cons' if cons else '')
+    def add(kind, n, U, method, deg, lam_mode, pairs=None, cons=False, budget=300, remap=False):
+        name = '%s/%s/deg=%s/n%d/U=%s/lam=%s/pairs=%s%s%s' % (kind, method, deg, n, ','.join(''.join(map(str, k)) or '-' for k in U), lam_mode,
+                                                            pairs, '/cons' if cons else '', '/remap' if remap else '')
         sig = '%s/%s/lam=%s%s' % (kind, method, lam_mode, '/pairs' if pairs else '')
         J.append(dict(name=name, sig=sig, module='vq.props.c01', make='make_reduce',
                       args=dict(kind=kind, n=n, U=[list(k) for k in U], method=method, deg=deg, lam_mode=lam_mode,
-                                pairs=[list(p) for p in pairs] if pairs else None, cons=cons), budget_s=budget))
+                                pairs=[list(p) for p in pairs] if pairs else None, cons=cons, remap=remap), budget_s=budget))
     lo = [(), (0,), (0, 1)]
     if tier == 'quick':
         hi4 = [(0, 1, 2), (0, 1, 3), (1, 2, 3), (0, 1, 2, 3)]
@@ -178,7 +182,16 @@ def jobs(tier, seed):
         add('PUSO', 3, lo + [(0, 1, 2)], 'to_quso', 2, 'const')
         add('PUSO', 4, [(0, 1, 2, 3)], 'to_puso', 3, 'none')
         add('PCSO', 3, [(0,), (0, 1, 2)], 'to_quso', 2, 'none')
+        # after set_mapping with a rotated labelling
+        add('PUSO', 3, lo + [(0, 1, 2)], 'to_qubo', 2, 'none', remap=True)
+        add('PUSO', 4, [(0, 1), (1, 2, 3)], 'to_pubo', 2, 'const', remap=True)
+        add('PCSO', 3, [(0,), (0, 1, 2)], 'to_quso', 2, 'none', remap=True)
+        add('PUBO', 4, [(0,), (0, 1, 2), (0, 1, 2, 3)], 'to_qubo', 2, 'none', remap=True)
+        add('PCBO', 4, [(0,), (1, 2, 3)], 'to_puso', 2, 'const', remap=True)
     else:
+        for kind in ('PUBO', 'PCBO', 'PUSO', 'PCSO'):
+            for method, deg in [('to_qubo', 2), ('to_quso', 2), ('to_pubo', 3), ('to_puso', 2)]:
+                add(kind, 4, [(0,), (0, 1), (1, 2, 3), (0, 1, 2, 3)], method, deg, 'const' if method in ('to_qubo', 'to_puso') else 'none', remap=True, budget=1200)
         hi4 = [(0, 1, 2), (0, 1, 3), (0, 2, 3), (1, 2, 3), (0, 1, 2, 3)]
         cross = [(0,), (0, 1, 2), (1, 2, 3), (0, 1, 2, 3)]
         for kind in ['PUBO', 'PCBO']:
